@@ -7,12 +7,23 @@
      results over the key list ks; `submitted` flattens the returned statement lists.
    * a typed text is a key list in which 13 marks a line break (Enter); `text_of` replaces
      every break by ONE space, `normalise m = TrimSpace (text_of m)`.
-   * `wf_stmt m`: m ends with its only ';' outside literals; single- or double-quoted
-     literals may contain ';', the other quote kind and spaces, but not their own quote kind,
-     no backslash and no break; breaks may stand ANYWHERE outside literals (also inside a
-     token: the theorem still holds, the token is then split by the space); every rune is
-     valid (printable for the terminal, not DEL, not a surrogate; any Unicode code point >= 32
-     otherwise - not only ASCII).
+   * `wf_stmt m` (= `wf_from 0 false m`, the scanner state of splitStatements being quote kind and
+     "previous rune was a backslash inside a literal"): m ends with its only ';' outside literals.
+     Single- or double-quoted literals may contain ';', the other quote kind, spaces and BACKSLASH
+     ESCAPES: inside a literal a backslash and the next rune form a pair, the second rune being ANY
+     valid rune (the literal's own quote kind, a backslash, ';', ...); it neither closes the literal
+     nor ends the statement - exactly the `cur++` of splitStatements. A literal is closed by the first
+     unescaped occurrence of its own quote kind (so 'C:\\' is a literal, 'C:\' is not closed by that quote).
+     What is assumed about literals now: NO LINE BREAK inside a literal (hence none between a
+     backslash and the rune it escapes) - an Enter there is entered as a space and alters the literal
+     (Example C20_break_inside_literal_alters_it) - and every literal is closed before the final ';'.
+     Outside literals a backslash is an ordinary rune (splitStatements gives it no meaning there: it
+     does not escape a following quote) and is allowed, as it always was.
+     Breaks may stand ANYWHERE outside literals (also inside a token: the theorem still holds, the
+     token is then split by the space); every rune is valid (printable for the terminal, not DEL, not
+     a surrogate; any Unicode code point >= 32 otherwise - not only ASCII).
+     The former hypothesis "literals contain no backslash" is `wf_plain_stmt`; it implies `wf_stmt`
+     (C20_backslash_free_in_scope), so every theorem below covers the old scope.
    * a script is a list of units (statement, separator); separators are breaks and printable
      white space (several statements per line = separators without break).
    * a delivery `pcs` cuts the script's keys into chunks, each typed or bracketed-pasted.
@@ -67,11 +78,18 @@ Theorem C20_submitted : forall us pcs,
 Proof. exact console_script. Qed.
 Print Assumptions C20_submitted.
 
-(* the literals of the submitted statement are those of the typed statement (breaks deleted) *)
+(* the literals of the submitted statement are exactly those of the typed statement (breaks, which
+   stand outside literals, deleted); `literals` follows the scanner of splitStatements, so a literal
+   includes its escape pairs: 'it\'s; ok' is ONE literal *)
 Theorem C20_literal_intact : forall m,
   wf_stmt m = true -> literals (normalise m) = literals (nobrk m).
 Proof. exact literal_intact. Qed.
 Print Assumptions C20_literal_intact.
+
+(* the former scope (no backslash inside literals) is a special case of the present one *)
+Theorem C20_backslash_free_in_scope : forall m, wf_plain_stmt m = true -> wf_stmt m = true.
+Proof. exact wf_plain_extends. Qed.
+Print Assumptions C20_backslash_free_in_scope.
 
 (* what is proved about spaces: a break becomes one extra space; if every break touches white
    space (or the start) on at least one side, the word sequence (runs without white space
@@ -125,6 +143,62 @@ Example C20_nonvacuous_result :
   [ Line [str "insert into t  values ('a;""b' ,  2) ;"; str "select ""x'y;"" from t;"] false;
     Line [] false ].
 Proof. vm_compute. reflexivity. Qed.
+
+(* literals with backslash escapes: an escaped quote of the literal's own kind and a ';' after it stay
+   inside ('it\'s; ok'); a literal ending in an escaped backslash IS closed by the quote after it and the
+   next statement on the same line is separate ('C:\\'); escaped double quotes and a ';' inside a
+   double-quoted literal ("say \"hi\";"). The first statement is typed over two lines, the third
+   and fourth are pasted. *)
+Definition esc_units : list (list N * list N) :=
+  [ (str "insert into t " ++ br ++ str "values ('it\'s; ok');", br);
+    (str "select 'C:\\';", str " ");
+    (str "select 2;", br);
+    (str "select ""say \""hi\"";"" from t;", br) ].
+Definition esc_pcs : list (bool * list N) :=
+  [ (false, str "insert into t " ++ br ++ str "values ('it\'s; ok');" ++ br ++ str "select 'C:\\'; ");
+    (true, str "select 2;" ++ br ++ str "select ""say \""hi\"";"" from t;" ++ br) ].
+
+Example C20_escapes_hyps :
+  forallb wf_unit esc_units = true /\ List.concat (List.map snd esc_pcs) = script_keys esc_units /\
+  forallb (fun u => breaks_at_spaces true (fst u)) esc_units = true /\
+  forallb (fun u => wf_plain_stmt (fst u)) esc_units = false.
+Proof. vm_compute. repeat split; reflexivity. Qed.
+
+Example C20_escapes_result :
+  fst (run init_term false (deliver esc_pcs ++ [keyEnter])) =
+  [ Line [str "insert into t  values ('it\'s; ok');"] false;
+    Line [str "select 'C:\\';"; str "select 2;"] false;
+    Line [str "select ""say \""hi\"";"" from t;"] true;   (* typed entirely inside the paste *)
+    Line [] false ] /\
+  submitted (fst (run init_term false (deliver esc_pcs ++ [keyEnter]))) =
+    List.map (fun u => normalise (fst u)) esc_units /\
+  List.map (fun u => literals (normalise (fst u))) esc_units =
+  [ [str "'it\'s; ok'"]; [str "'C:\\'"]; []; [str """say \""hi\"";"""] ].
+Proof. vm_compute. repeat split; reflexivity. Qed.
+
+(* the boolean hypothesis check and the oracle of the correspondence run (Spec/ConsoleSpec.v hyps_hold,
+   spec_accepts) accept this script - here with the model's own answer as the observation *)
+Example C20_escapes_in_scope_for_the_check :
+  let c := mkCase [encode_keys (final_enter esc_pcs)] (Some (esc_units, esc_pcs)) key_consts
+                  (session_keys (final_enter esc_pcs)) in
+  hyps_hold c = true /\ spec_accepts c = true /\ model_agrees c = true.
+Proof. vm_compute. repeat split; reflexivity. Qed.
+
+(* still outside the hypotheses: a break inside a literal; a break between a backslash and the rune
+   it escapes; a literal whose only closing quote is escaped (it is not closed: nothing is submitted,
+   the console keeps waiting). A backslash OUTSIDE quotes is inside the hypotheses as an ordinary
+   rune - but it escapes nothing there: in `select \'a;b';` the quote after it opens a literal
+   (that is what splitStatements does, and what the theorem says). *)
+Example C20_outside_hypotheses :
+  wf_stmt (str "select 'a" ++ br ++ str "b';") = false /\
+  wf_stmt (str "select 'a\" ++ br ++ str "'b';") = false /\
+  wf_stmt (str "select 'abc\';") = false /\
+  fst (run init_term false (str "select 'abc\';" ++ br)) = [] /\
+  wf_stmt (str "select 1 \ 2;") = true /\
+  wf_stmt (str "select \'a;") = false /\
+  wf_stmt (str "select \'a;b';") = true /\
+  fst (run init_term false (str "select \'a;b';" ++ br)) = [Line [str "select \'a;b';"] false].
+Proof. vm_compute. repeat split; reflexivity. Qed.
 
 (* Enter before the ';' does not submit; the prefix is kept and completed later *)
 Example C20_nonvacuous_incomplete :
